@@ -170,7 +170,12 @@ def lshift_simplifier(val, shift):
         return val
     if val.op == "__lshift__":
         real_val, inner_shift = val.args
-        return real_val << (inner_shift + shift)
+        if inner_shift.op == "BVV" and shift.op == "BVV":
+            # the sum of the two amounts must not be taken modulo 2**size: (x << 255) << 1 is 0, not x << 0
+            total = inner_shift.args[0] + shift.args[0]
+            if total >= val.size():
+                return claripy.BVV(0, val.size())
+            return real_val << total
     return None
 
 
